@@ -268,6 +268,26 @@ def sim_flow(ctx: Ctx):
                "additional targets are computed from the processed panel, the model functions and the params of this call"
                if ok else "additional targets are not computed from (panel, model.functions, params of the call)",
                lhs=show(c)[:250])
+        # the computed targets enter the panel under their own names and unchanged
+        panel = kw(fr.ret, "processed") or (fr.ret[2][0] if fr.ret[0] == "call" and fr.ret[2] else None)
+        from lcmsa.alg import norm as _norm
+
+        n_panel = _norm(panel) if panel is not None else None
+        parts = []
+        for x in walk(n_panel) if n_panel is not None else []:
+            if x[0] == "bar":
+                parts += list(x[1])
+        merged = _norm(c) in parts
+        transformed = [p_ for p_ in parts if p_ != _norm(c) and any(y == _norm(c) for y in walk(p_))]
+        verdict = True if merged else False if transformed and any(
+            p_[0] == "comp" and p_[1] == "dict" and (p_[2][0] != (p_[3][0][0][1][0] if p_[3][0][0][0] == "tuple" else None)
+                                                   or p_[2][1] != (p_[3][0][0][1][1] if p_[3][0][0][0] == "tuple" else None))
+            for p_ in transformed) else None
+        ctx.ob("FLOW:targets-merged-unchanged", verdict, prog.where(c),
+               "the computed targets are merged into the panel under their own names" if verdict else
+               "the computed targets are renamed or transformed before they are merged into the panel: a target can overwrite "
+               "another column" if verdict is False else "merging of the computed targets into the panel not recognised",
+               lhs=show(panel)[:200] if panel is not None else "missing")
     else:
         ctx.undecided("FLOW:targets-arguments", "_compute_targets call not found")
     r = fr.ret
